@@ -57,6 +57,20 @@ def run(prog, tier, res):
     R6 = res.rule("C01.R6", "entry floor: TryFrom impls and decoders present in the analysed scope", 40)
     R7 = res.rule("C01.R7", "premises of the audited implications re-checked", 3)
     sc = scope_of(prog)
+    if tier == "thorough":
+        # deeper path enumeration, and a verdict census of the lazy_static initialisers (reported, not obligations)
+        oblig.PATH_LIMIT[0] = 4096
+        census = {}
+        for p in sc.census_only:
+            try:
+                ctx = oblig.Ctx(prog, prog.bodies[p])
+                for o in oblig.collect(ctx):
+                    oblig.discharge(ctx, o)
+                    census.setdefault(short(p), {}).setdefault(o.verdict, 0)
+                    census[short(p)][o.verdict] += 1
+            except RecursionError:
+                census[short(p)] = {"analysis": "recursion limit"}
+        res.extra["lazy_init_census"] = census
     rules = {"assert": R1, "call": R2, "panic": R3, "loop": R4, "callee": R5}
     opens, used = panicfree.run_scope(prog, res, sc, rules, audited_rules(prog))
     # entries
